@@ -101,11 +101,18 @@ func runE2E(r *Report, known []Finding, sp e2eSpec) {
 					// probes also meet inputs stretched across the internal budgets and windows, in systematic variants, and a sampled
 					// match behind every combination of (word / non-word) x (word / non-word) context bytes: the byte before a candidate
 					// and the byte before THAT decide assertions and start states
-					nhp = nh + 24 + len(ctxPairs)
+					nhp = nh + 24 + len(ctxPairs) + 6
 				}
 				for k := 0; k < nhp; k++ {
 					h := GenHaystack(j.r, ast, false)
-					if k >= nh+24 {
+					if k >= nh+24+len(ctxPairs) {
+						// a failed attempt directly followed by a match that starts inside the bytes it consumed: m[:cut] + m
+						b := 30
+						m := sampleMatch(j.r, ast, nil, &b)
+						if len(m) > 1 {
+							h = append(append([]byte(nil), m[:1+j.r.Intn(len(m)-1)]...), m...)
+						}
+					} else if k >= nh+24 {
 						b := 40
 						h = sampleMatch(j.r, ast, []byte(ctxPairs[k-nh-24]), &b)
 						if j.r.Bool() {
